@@ -129,6 +129,8 @@ class StartupPath:
             elif last in ('write_all', 'write') and ('io::Write' in ef['callee'] or 'File' in ef['callee']) and len(ef['args']) >= 2:
                 buf = ef['pointees'][1] if len(ef.get('pointees') or []) > 1 and ef['pointees'][1] is not None else ef['args'][1]
                 out.append(('bytes', None, buf, ef))
+            elif last in ('set_len', 'ftruncate') and len(ef['args']) >= 2:
+                out.append(('setlen', None, ef['args'][1], ef))
         return out
 
 
@@ -144,6 +146,18 @@ class FileImage:
             if kind == 'typed':
                 self.segs.append((off, width, ('val', v)))
                 off += width
+            elif kind == 'setlen':
+                # set_len / ftruncate: the file ends exactly there; the kernel zero-fills any extension (the cursor stays)
+                from .C04 import lossless_origin
+                o = lossless_origin(v)
+                n = o[1] if psi.is_int_const(o) else v[1] if psi.is_int_const(v) else None
+                end = max([a + b for a, b, _ in self.segs if b is not None] + [0])
+                if n is None or n < end:
+                    self.problems.append('the file is cut or sized to a length that is not understood at %s: %s' % (ef['site'][2], fmt(v)[:120]))
+                    break
+                if n > end:
+                    self.segs.append((end, n - end, ('fill', psi.C(0, 'u8'))))
+                self.setlen_end = n
             else:
                 f = flatten_bytes(v)
                 if f is None:
@@ -153,7 +167,7 @@ class FileImage:
                 for n, c in f:
                     self.segs.append((off, n, c))
                     off += n
-        self.total = off if not self.problems else None
+        self.total = max([off] + [a + b for a, b, _ in self.segs if b is not None]) if not self.problems else None
 
     @staticmethod
     def _zero(t):
